@@ -42,7 +42,7 @@ func (s *Weighted) TryAcquire(n int64) bool {
 	}
 	r := kern.Call(kern.Req{Op: kern.OpSemTry, Obj: kern.ObjID(&s.id), A: n, B: s.size})
 	if r.A == 1 {
-			if kern.RaceLane && !kern.Aborting() {
+		if kern.RaceLane && !kern.Aborting() {
 			s.real.TryAcquire(n)
 		}
 		return true
